@@ -69,7 +69,7 @@ def gen_case(seed, tier="quick"):
     vol = {"aff": [r.choice((2.0, 3.5)), r.choice((1.0, 4.0))]} if (dep and r.random() < 0.6) else {"c": r.choice((0.75, 2.5, 7.0))}
     ops = [o for o in ("volume", "density", "call", "translate", "rotate", "product", "union") if r.random() < 0.6] or ["volume"]
     if k == "iv":
-        ops = [o for o in ops if o not in ("rotate",)]
+        ops = [o for o in ops if o not in ("rotate",)] or ["volume"]
     r.shuffle(ops)
     r3 = rnd(seed, "hist-extra")
     if "c" in vol:
